@@ -20,6 +20,8 @@ func init() {
 			ruleSummaryIsNotLiveness(c, "R7b")
 			ruleSortAfterInsert(c, "R9")
 			ruleGuardedIndexing(c, "R11")
+			ruleIndexResetOnEveryPath(c, "R2c")
+			ruleReservedKeysNotDeletable(c, "R12", []string{"", "OPTIONS"}, "removing methods by name never removes the 405 / OPTIONS entries a later request needs (no nil handler after Remove)")
 			ruleSearchTriesEverySibling(c, "R10", []*ssa.Function{c.A.TreeRemove}, "a removed pattern is gone: the lookup of the node to remove tries every sibling")
 		},
 	})
